@@ -80,8 +80,13 @@ func genC04(r *Rng, tier string) *C04Case {
 		}
 	}
 	nt := r.Range(3, 8)
+	var focus []filt
+	if r.Chance(0.5) {
+		focus = pickFocus(r.Fork(77)) // the same few filters, with varied arguments, across the whole pool
+	}
 	for i := 0; i < nt; i++ {
 		g := NewGen(r.Fork(uint64(200+i)), r.Range(4, 30))
+		g.focus = focus
 		g.ArrEmphasis = r.Chance(0.4)
 		g.incArgs = incArgs
 		if r.Chance(0.7) {
